@@ -33,6 +33,8 @@ def weaken_sites(run, what, trace, max_lines=4000):
             if e["k"] == "A":
                 sites.add((e["op"], e["v"]))
     out = {}
+    if not run.thorough():
+        sites = {("*", "*")}          # quick tier: one run with every atomic site relaxed at once (per-site detail: thorough tier)
     for site in sorted(sites):
         p = run.path("weak-%s-%s-%s.ndjson" % (what, site[0], site[1]))
         with open(p, "w") as f:
@@ -40,7 +42,7 @@ def weaken_sites(run, what, trace, max_lines=4000):
                 ev2 = ev
                 if "hb" in ev:
                     ev2 = dict(ev)
-                    ev2["hb"] = [dict(e, mo=0) if (e["k"] == "A" and (e["op"], e["v"]) == site) else e for e in ev["hb"]]
+                    ev2["hb"] = [dict(e, mo=0) if (e["k"] == "A" and ((e["op"], e["v"]) == site or site[0] == "*")) else e for e in ev["hb"]]
                 f.write(json.dumps(ev2, separators=(",", ":")) + "\n")
         ok, matched, res = validate_trace(run, "TraceHB", "TraceHB.cfg", p, tag="weak-%s-%s" % site)
         out["%s(%s)" % site] = "needed: relaxing it yields a race (NoRace violated)" if (not ok and res.get("violated") == "NoRace") \
@@ -56,17 +58,17 @@ def run(run):
     light = not run.thorough()
     for variant, flags in (("c11", ()), ("noatomics", ("-D__STDC_NO_ATOMICS__",))):
         exe = build_vrt(run, "mq_drv_" + variant, "mq_drv.c", ["librfn/messageq.c"], extra_flags=flags)
-        cfgs = [("t212", (1, 2, 2, 3)), ("i222", (2, 2, 2, 4)), ("t321", (2, 3, 1, 3))] if light else None
+        cfgs = [("t212", (1, 2, 2, 3)), ("i222", (2, 2, 2, 4))] if light else None
         if light and variant != "c11":
             cfgs = cfgs[:1]
-        trs = c04.run_mq(run, exe, cfgs=cfgs, nrandom=(300 if variant == "c11" else 100) if light else None, tagp=variant + "-")
+        trs = c04.run_mq(run, exe, cfgs=cfgs, nrandom=(200 if variant == "c11" else 60) if light else None, tagp=variant + "-", validate=False)
         for i, t in enumerate(trs):
             hb_check(run, "hb-mq-%s-%d" % (variant, i), t)
         if variant == "c11":
             weaken_sites(run, "messageq", trs[0])
         exe = build_vrt(run, "rb_drv_" + variant, "rb_drv.c", ["librfn/ringbuf.c"], extra_flags=flags)
-        trs = c05.run_rb(run, exe, cfgs=c05.CFGS[:2] if (light and variant != "c11") else None,
-                         nrandom=(500 if variant == "c11" else 150) if light else None, tagp=variant + "-")
+        trs = c05.run_rb(run, exe, cfgs=(c05.CFGS[:1] if variant != "c11" else c05.CFGS[:4]) if light else None,
+                         nrandom=(300 if variant == "c11" else 80) if light else None, tagp=variant + "-", validate=False)
         for i, t in enumerate(trs):
             hb_check(run, "hb-rb-%s-%d" % (variant, i), t)
         if variant == "c11":
